@@ -1572,7 +1572,21 @@ func docCase(stored []byte) {
 			}
 			return common.Hex(v)
 		}
-		obs = field("mediaType") + " " + field("artifactType")
+		cfg := "NONE"
+		if raw, ok := top["config"]; ok {
+			var c struct {
+				MediaType string `json:"mediaType"`
+				Digest    string `json:"digest"`
+				Size      int64  `json:"size"`
+			}
+			if json.Unmarshal(raw, &c) == nil {
+				if c.Size < 0 {
+					c.Size = 0 // the model's reader takes the run of digits after "size": (none for a negative number)
+				}
+				cfg = fmt.Sprintf("%s:%s:%d", common.Hex(c.MediaType), common.Hex(c.Digest), c.Size)
+			}
+		}
+		obs = field("mediaType") + " " + field("artifactType") + " " + cfg
 	}
 	run.Case(id, "D "+common.Hex(string(stored)), obs)
 	run.Count("document_head")
